@@ -60,9 +60,14 @@ def default(obj: Any, default_: object = "", *, allow_false: bool = False) -> An
     return obj
 
 
+@functools.lru_cache(maxsize=10)
+def _parse_date_string(dat: str) -> datetime.datetime:
+    """Parse a date/time string. Parsing is slow, so recently seen strings are cached."""
+    return parser.parse(dat)
+
+
 @with_environment
 @liquid_filter
-@functools.lru_cache(maxsize=10)
 def date(  # noqa: PLR0912 PLR0911
     dat: Union[datetime.datetime, str, int],
     fmt: str,
@@ -85,7 +90,7 @@ def date(  # noqa: PLR0912 PLR0911
             dat = datetime.datetime.fromtimestamp(int(dat))
         else:
             try:
-                dat = parser.parse(dat)
+                dat = _parse_date_string(dat)
             except parser.ParserError:
                 # Input is returned unchanged. This is consistent
                 # with the reference implementation.
